@@ -32,7 +32,11 @@ def run(ctx):
         with warnings.catch_warnings():
             warnings.simplefilter("ignore")
             vals_arg, vals_how = dom.gas_values_form(vals, k + 1)    # what the keys say decides, not the order they were inserted in
-            tb = build_pvt_gas(vals_arg, g["dry"], pmax)
+            try:
+                tb = build_pvt_gas(vals_arg, g["dry"], pmax)
+            except Exception as e:  # noqa: BLE001
+                bad("build_pvt_gas fails for an admissible gas description", dict(gas_values=vals, gas_values_given_as=vals_how, dryness=g["dry"], maximum_pressure=pmax), repr(e)[:200])
+                continue
         # mappings that answer gas_values[key] through their own lookup (a record that falls back to field-wide defaults for entries a
         # well does not list; a record that resolves aliased names): what gas_values[key] returns is the gas the table is built for
         if k < (1 if ctx.quick else 4):
@@ -67,6 +71,17 @@ def run(ctx):
         z = np.asarray(tb["z-factor"], float)
         m_tab = np.asarray(tb["pseudopressure"], float)
         m_sa = np.asarray(pseudopressure(P, mu, z), float)
+        # the same columns held as object arrays of Python floats (a DataFrame read with dtype=object, a column that once held a label):
+        # the transform answers, with the same values
+        ev += 1
+        try:
+            with warnings.catch_warnings():
+                warnings.simplefilter("ignore")
+                m_obj = np.asarray(pseudopressure(np.array(P.tolist(), dtype=object), np.array(mu.tolist(), dtype=object), np.array(z.tolist(), dtype=object)), float)
+            if m_obj.shape != m_sa.shape or not np.allclose(m_obj, m_sa, rtol=1e-12, atol=0):
+                bad("the stand-alone table transform gives other values for columns of object dtype holding the same numbers", dict(rows=len(P), columns="object dtype"), float(np.abs(m_obj - m_sa).max()))
+        except Exception as e:  # noqa: BLE001
+            bad("the stand-alone table transform fails on positive columns of object dtype (Python floats)", dict(rows=len(P), columns="object dtype", first_pressures=[float(x) for x in P[:3]]), repr(e)[:200])
         inp = dict(gas_values=vals, gas_values_given_as=vals_how, dryness=g["dry"], maximum_pressure=pmax)
         ev += 2
         if not np.allclose(m_tab, m_sa, rtol=1e-12, atol=1e-9):
